@@ -107,9 +107,10 @@ fn assemble_in(ctx: PreprocessorContext, src: &str) -> Result<Assembled, AsmErr>
                 code: out.code,
                 labels,
                 label_src_pos,
-                fn_map,
+                // container types of the library's maps are not relied upon
+                fn_map: fn_map.into_iter().collect(),
                 undefined,
-                source_map: mapper.get_source_map(),
+                source_map: mapper.get_source_map().into_iter().collect(),
             })
         }
     }
@@ -142,7 +143,7 @@ impl Assembled {
                 lib::Label::new(if *is_data { LabelType::DATA } else { LabelType::CODE }, 0, *m),
             );
         }
-        c.fn_map = self.fn_map.clone();
+        c.fn_map = self.fn_map.iter().map(|(k, v)| (k.clone(), *v)).collect();
         c
     }
     /// data label offsets for the reference
